@@ -9,6 +9,9 @@ import json, os, re, time
 from common import *
 
 CFG = {"MaxN": 4, "MaxLen": 8, "MaxCap": 10}
+OPS = ["into_array", "from_array", "into_component", "try_from_component", "from_component", "into_uint", "from_uint",
+       "map", "ref_as_slice", "try_slice_as_ref"]
+FORMS = ["value", "ref", "mut", "box", "array", "slice", "slice_mut", "boxed_slice", "vec"]
 
 
 def chains(ctx, max_ops, tag):
@@ -194,7 +197,19 @@ def run(ctx):
             raise ToolError("vacuity: %s covered %s of %d types" % (tag, m.group(2), ntypes))
         scen_total += int(m.group(1))
         skipped += int(m.group(4))
+        if tag == "cast_d1":
+            # vacuity of the recording: every operation, every call style and every outcome kind was exercised
+            txt = open(tp).read()
+            want = ['"op":"%s"' % o for o in OPS] + ['"api":%d' % a for a in range(5)] + ['"m":1'] + \
+                   ['"err":%d' % k for k in (0, 1, 2, 3, 9)] + ['"form":"%s"' % f for f in FORMS + ["dead"]]
+            missing = [w for w in want if w not in txt]
+            del txt
+        else:
+            missing = []
         res = validate_trace(ctx, "TraceCast", tp, tag=tag)
+        if missing and not res.rejected:
+            # (with rejections the implementation departed from the model and an outcome kind may rightly be absent)
+            raise ToolError("vacuity: the depth-1 recording was accepted but never shows %s" % missing)
         bad_scen = set()
         notes = model_notes(ctx, tag) if res.rejected else {}
         add_samples(ctx, tp, n=2, every=100003)
